@@ -285,7 +285,121 @@ pub fn run(ctx: &mut Ctx) {
             }
         }
     }
+    constructors_and_refusals(ctx);
     super::c06_datapath::run(ctx);
+}
+
+/// outcome of `read_info` + `next_frame` + `finish` for a reader built by one of the three public constructors
+fn outcome_with(file: &[u8], ctor: u8) -> Result<String, String> {
+    let file = file.to_vec();
+    guarded(move || -> String {
+        let input = std::io::Cursor::new(file);
+        let dec = match ctor {
+            0 => png::Decoder::new(input),
+            1 => png::Decoder::new_with_options(input, png::DecodeOptions::default()),
+            _ => png::Decoder::new_with_limits(input, png::Limits::default()),
+        };
+        let mut reader = match dec.read_info() {
+            Ok(r) => r,
+            Err(e) => return format!("read_info:{}", crate::canon::err_class(&e)),
+        };
+        let size = reader.output_buffer_size();
+        let mut out = String::new();
+        if size <= (1 << 26) {
+            let mut buf = vec![0u8; size];
+            match reader.next_frame(&mut buf) {
+                Ok(_) => out.push('F'),
+                Err(e) => out.push_str(&format!(" {}", crate::canon::err_class(&e))),
+            }
+        }
+        match reader.finish() {
+            Ok(()) => out.push_str(" fin:ok"),
+            Err(e) => out.push_str(&format!(" fin:{}", crate::canon::err_class(&e))),
+        }
+        out
+    })
+}
+
+/// (a) the default limit is in force however the `Decoder` is built: `new`, `new_with_options(default)` and
+///     `new_with_limits(Limits::default())` answer alike on files that exceed it (seeded change C06_5);
+/// (b) a frame start refused by `Limits` while rows of the PREVIOUS frame are still buffered and the end of its data has been
+///     seen (a highly compressible frame just above the 32 KiB inflate buffer, read by rows almost to its end): no row and no
+///     frame may be delivered after the refusal (seeded change C18_8)
+fn constructors_and_refusals(ctx: &mut Ctx) {
+    let mut rng = ctx.rng.fork(0xc06c);
+    // (a)
+    let mut over_default: Vec<(&str, Vec<u8>)> = vec![];
+    over_default.push(("row-of-400-MB", serialize(&[ihdr(100_000_000, 1, 8, 6, 0), RawChunk::new(b"IDAT", zlib_stream(&[0, 1, 2, 3, 4], &Deflater::Level(6))), RawChunk::new(b"IEND", vec![])])));
+    over_default.push(("row-of-2-GB-interlaced", serialize(&[ihdr(0x7fff_ffff, 3, 8, 0, 1), RawChunk::new(b"IDAT", zlib_stream(&[0, 1], &Deflater::Level(6))), RawChunk::new(b"IEND", vec![])])));
+    {
+        let mut d = b"icc\0\0".to_vec();
+        d.extend(zlib_stream(&vec![7u8; 72 << 20], &Deflater::Level(9)));
+        over_default.push(("iccp-inflating-to-72-MiB", serialize(&[ihdr(2, 2, 8, 0, 0), RawChunk::new(b"iCCP", d), RawChunk::new(b"IDAT", zlib_stream(&[0, 1, 2, 0, 3, 4], &Deflater::Level(6))), RawChunk::new(b"IEND", vec![])])));
+    }
+    for (name, file) in &over_default {
+        let outs: Vec<Result<String, String>> = (0..3u8).map(|c| outcome_with(file, c)).collect();
+        ctx.rep.eval(true, fnv64(file));
+        ctx.rep.count("attack", "over-the-default-limit");
+        let names = ["Decoder::new", "Decoder::new_with_options(default)", "Decoder::new_with_limits(default)"];
+        for c in 0..3 {
+            match &outs[c] {
+                Err(p) => ctx.rep.violation("oracle", &format!("panic/{}", name), &format!("{}: panic: {}", names[c], p), case(file, 64 << 20, 0, 0, name)),
+                Ok(o) => {
+                    if !o.contains("limits") && *name != "iccp-inflating-to-72-MiB" || (outs[2].as_ref().ok() != Some(o)) {
+                        ctx.rep.violation("oracle", &format!("default-limit-not-in-force/{}", name), &format!("{} on `{}` answers `{}`, a decoder with Limits::default() answers `{}`", names[c], name, o, outs[2].clone().unwrap_or_default()), case(file, 64 << 20, 0, 0, name));
+                    }
+                }
+            }
+        }
+    }
+    // (b)
+    let (w, h) = (400u32, 3700u32);
+    let z0 = zlib_stream(&vec![0u8; 9 * h as usize], &Deflater::Level(6));
+    let z1 = zlib_stream(&vec![0u8; (w as usize + 1) * 2], &Deflater::Level(6));
+    let mut fd = 2u32.to_be_bytes().to_vec();
+    fd.extend(z1);
+    let file = serialize(&[
+        ihdr(w, h, 8, 0, 0), actl(2, 0),
+        Fctl { seq: 0, w: 8, h, x: 0, y: 0, delay_num: 1, delay_den: 1, dispose: 0, blend: 0 }.chunk(), RawChunk::new(b"IDAT", z0),
+        Fctl { seq: 1, w, h: 2, x: 0, y: 0, delay_num: 1, delay_den: 1, dispose: 0, blend: 0 }.chunk(), RawChunk::new(b"fdAT", fd),
+        RawChunk::new(b"IEND", vec![]),
+    ]);
+    let probe = [rops::Op::ReadInfo, rops::Op::NextRow, rops::Op::NextFrameInfo];
+    let mut limit = None;
+    for l in [64usize, 96, 128, 192, 256, 320, 384] {
+        let cfg = rops::Config { limit: Some(l), ..rops::Config::default() };
+        let t = rops::run_ops(&file, file.len(), &probe, &cfg);
+        if !t.panicked && t.tokens.len() == 3 && t.tokens[1].starts_with("row(") && t.tokens[2] == "err(limits)" {
+            limit = Some(l);
+            break;
+        }
+    }
+    match limit {
+        None => ctx.rep.notes.push("refused-frame-with-buffered-rows: no limit found that admits the first frame only (generator needs attention)".into()),
+        Some(l) => {
+            let cfg = rops::Config { limit: Some(l), ..rops::Config::default() };
+            for k in [1u32, 2, 3, 5, 8, 13, 40, 200, 1000] {
+                let mut ops = vec![rops::Op::ReadInfo];
+                ops.extend((0..h - k).map(|_| rops::Op::NextRow));
+                ops.extend([rops::Op::NextFrameInfo, rops::Op::NextRow, rops::Op::ReadRow, rops::Op::NextFrame(0), rops::Op::NextRow]);
+                let t = rops::run_ops(&file, file.len(), &ops, &cfg);
+                ctx.rep.eval(true, fnv64(&file) ^ k as u64);
+                ctx.rep.count("attack", "refused-frame-with-buffered-rows");
+                let at = (h - k) as usize + 1;
+                if t.panicked {
+                    ctx.rep.violation("oracle", "panic/refused-frame-with-buffered-rows", &format!("{} rows read, next_frame_info, then row / frame calls: {}", h - k, t.tokens.last().cloned().unwrap_or_default()), case(&file, l, 0, 1, "refused-frame-with-buffered-rows"));
+                } else if t.tokens.get(at).map(|x| x == "err(limits)").unwrap_or(false) {
+                    if let Some(bad) = t.tokens[at + 1..].iter().find(|x| x.starts_with("row(") || x.starts_with("frame(")) {
+                        ctx.rep.violation("oracle", "delivered-after-refusal", &format!("Limits{{bytes: {}}}: {} of {} rows of the first frame read by row calls, next_frame_info refused with LimitsExceeded, then a later call delivered `{}`", l, h - k, h, bad),
+                            case(&file, l, 0, 1, "refused-frame-with-buffered-rows"));
+                    }
+                } else {
+                    ctx.rep.notes.push(format!("refused-frame-with-buffered-rows k={}: next_frame_info answered `{}`", k, t.tokens.get(at).cloned().unwrap_or_default()));
+                }
+            }
+        }
+    }
+    let _ = &mut rng;
 }
 
 fn case(file: &[u8], l: usize, flags: u8, path: u8, name: &str) -> J {
